@@ -38,6 +38,8 @@ type JobSpec struct {
 	MaxPaths     int64                       `json:"max_paths"`
 	Bound        string                      `json:"bound"` // human-readable statement of the bound
 	Overrides    []string                    `json:"overrides"` // target=replacement, in addition to the harness files' //gosx:override lines
+	PermuteMaps  bool                        `json:"permute_maps"`   // explore the iteration orders of maps with 2..4 entries (forked choices)
+	MapPermBudget int                        `json:"map_perm_budget"` // at most this many permutation choices per path (0 = all)
 	ExploreSched bool                        `json:"explore_sched"` // fork over every choice among several ready select cases (arrival orders of worker results)
 	SchedBudget  int                         `json:"sched_budget"` // at most this many scheduling choices are forked per path (0 = all)
 	TraceAccess  bool                        `json:"trace_access"`  // record map accesses with locksets and vector clocks; report feasible conflicting pairs (C10)
@@ -478,7 +480,7 @@ func runJob(p *Program, js *JobSpec, params map[string]int64, workers int, solve
 			return jr
 		}
 	}
-	sh := &Shared{prog: p.prog, params: params, job: js.Name, paranoid: paranoid, verbose: verbose, exploreSched: js.ExploreSched, traceAccess: js.TraceAccess, schedBudget: js.SchedBudget, maxPaths: js.MaxPaths, overrides: map[string]extFn{}}
+	sh := &Shared{prog: p.prog, params: params, job: js.Name, paranoid: paranoid, verbose: verbose, exploreSched: js.ExploreSched, permuteMaps: js.PermuteMaps, mapPermBudget: js.MapPermBudget, traceAccess: js.TraceAccess, schedBudget: js.SchedBudget, maxPaths: js.MaxPaths, overrides: map[string]extFn{}}
 	sh.cond = sync.NewCond(&sh.mu)
 	for _, o := range overrides {
 		tgt, repl := p.byName[o[0]], p.byName[o[1]]
